@@ -14,7 +14,7 @@ RULE = ("random grammars (<=4 variables, <=2-3 terminals, <=7 productions, bodie
 ASSUMPTIONS = ["membership is compared for all words up to the bound only"]
 TIERS = {
     "quick": {"workers": 4, "random": 3000},
-    "thorough": {"workers": 16, "random": 6000, "pytest": True, "exhaustive": True, "hard_timeout": 3000},
+    "thorough": {"workers": 16, "random": 25000, "pytest": True, "exhaustive": True, "hard_timeout": 3000},
 }
 MIN = {"quick": {"C08.CFG.contains": 20000, "C08.CFG.generate_epsilon": 1000, "C08.CFG.__contains__": 1000},
        "thorough": {"C08.CFG.contains": 500000}}
